@@ -160,26 +160,36 @@ def run_family(ck, n_grammars, n_random, p_err=0.3, want_hist=True):
         nreg = len(reg)
         tab_lines = []
         for (i_a, i_n, i_s, sg) in idx:
-            tab_lines += ["lrtab %d" % i_a, "terminals %d" % i_a, "c05oracle %d" % i_a]
+            tab_lines += ["lrtab %d" % i_a, "terminals %d" % i_a, "c05oracle %d" % i_a, "validate %d" % i_a]
         mtabs = C.run_model(reg + tab_lines, timeout=3000)[nreg:]
         itabs_lines = []
         for (i_a, i_n, i_s, sg) in idx:
             if b.items[i_a]["rc"] == 0:
                 itabs_lines += ["lrtab %d" % i_a, "terminals %d" % i_a]
+            if i_s is not None and b.items[i_s]["rc"] == 0:
+                itabs_lines += ["terminals %d" % i_s]
         itabs = dict(zip(itabs_lines, b.run(itabs_lines))) if itabs_lines else {}
         # inputs
         ilines, meta = [], []
+        names_by_gi = {}
         for gi, ((i_a, i_n, i_s, sg), g) in enumerate(zip(idx, gs)):
             if b.items[i_a]["rc"] != 0:
                 continue
             names, inv_ok, unknown = parse_terminals(itabs["terminals %d" % i_a])
             types = {nm: k for k, nm in enumerate(names)}
             inputs = gen_inputs(rng, g, types, n_random)
+            stypes = None
+            if i_s is not None and b.items[i_s]["rc"] == 0:
+                snames, _, _ = parse_terminals(itabs["terminals %d" % i_s])
+                stypes = {nm: k for k, nm in enumerate(snames)}
+                names_by_gi[gi] = (names, snames)
             for w in inputs:
                 ilines.append("parse %d 0 %s" % (i_a, " ".join(map(str, w))))
                 meta.append((gi, "parse", w, 0))
-                if i_s is not None and b.items[i_s]["rc"] == 0:
-                    ilines.append("parse %d 0 %s" % (i_s, " ".join(map(str, w))))
+                if stypes is not None and all(names[t] in stypes for t in w):
+                    # the twin without error alternatives numbers its terminals differently: translate by name
+                    ws = [stypes[names[t]] for t in w]
+                    ilines.append("parse %d 0 %s" % (i_s, " ".join(map(str, ws))))
                     meta.append((gi, "stripped", w, 0))
             if want_hist and inputs:
                 for _ in range(3):
@@ -223,6 +233,7 @@ def run_family(ck, n_grammars, n_random, p_err=0.3, want_hist=True):
             elif m[1] == "fail":
                 f = l.split()
                 olines.append("tree %s %s %s" % (f[1], f[2], " ".join(f[3:])))
+        fresh = b.run(hist_as_parses) if hist_as_parses else []
         mall = C.run_model(reg + plines + hist_as_parses + olines, timeout=6000)[nreg:]
         mp = dict(zip(plines, mall[:len(plines)]))
         mh = mall[len(plines):len(plines) + len(hist_as_parses)]
@@ -234,15 +245,18 @@ def run_family(ck, n_grammars, n_random, p_err=0.3, want_hist=True):
             ia, inn = b.items[i_a], b.items[i_n]
             rec = {"gi": gi, "g": g, "text": ia["text"].decode(), "rc_a": ia["rc"], "rc_noa": inn["rc"], "hang": ia["hang"] or inn["hang"],
                    "out_a": ia["out"], "out_noa": inn["out"], "err_a": ia["err"], "err_noa": inn["err"],
-                   "model_lrtab": mtabs[3 * gi], "model_terms": mtabs[3 * gi + 1], "c05": mtabs[3 * gi + 2],
+                   "model_lrtab": mtabs[4 * gi], "model_terms": mtabs[4 * gi + 1], "c05": mtabs[4 * gi + 2], "validate": mtabs[4 * gi + 3],
                    "impl_lrtab": itabs.get("lrtab %d" % i_a), "impl_terms": itabs.get("terminals %d" % i_a),
-                   "stripped": i_s is not None and b.items[i_s]["rc"] == 0, "cases": [], "hists": []}
+                   "stripped": i_s is not None and b.items[i_s]["rc"] == 0,
+                   "stripped_conflicts": conflicts_reported(b.items[i_s]["out"]) if i_s is not None else None,
+                   "names": names_by_gi.get(gi), "cases": [], "hists": []}
             per.append(rec)
         for l, o, m in zip(ilines, iout, meta):
             gi, kind, w, extra = m
             if kind == "hist":
                 n = len(w)
-                per[gi]["hists"].append({"line": l, "impl": o, "model": " || ".join(mh[hk:hk + n]), "hist": w, "fails": extra})
+                per[gi]["hists"].append({"line": l, "impl": o, "model": " || ".join(mh[hk:hk + n]),
+                                         "fresh": " || ".join(fresh[hk:hk + n]), "hist": w, "fails": extra})
                 hk += n
             else:
                 f = l.split()
